@@ -33,7 +33,10 @@ LEAF_TYPE = {
     "enum": R("Color"), "fixed": R("F2"), "typeref": R("Tr"), "custom": R("CT"), "record": R("Leaf"), "union": R("U"),
     "raw": {"rawRecord": True},
 }
+ONS = "gr.other"
+LEAF_TYPE.update({"o_enum": R("OColor", ONS), "o_fixed": R("OF2", ONS), "o_typeref": R("OTr", ONS), "o_record": R("OLeaf", ONS), "o_union": R("OU", ONS)})
 LEAF_DEFAULT = {
+    "o_enum": "\"BLUE\"", "o_fixed": "\"xyz\"", "o_typeref": "7", "o_record": "{}", "o_union": "{\"string\":\"s\"}",
     "int32": "1", "int64": "2", "float32": "1.5", "float64": "2.5", "bool": "true", "string": "\"s\"", "bytes": "\"ab\"",
     "enum": "\"RED\"", "fixed": "\"ab\"", "typeref": "\"t\"", "custom": "\"c\"", "record": "{\"a\":1}", "union": "{\"int\":3}",
 }
@@ -43,7 +46,7 @@ BASE_TYPES = [
     named("fixed", "F2", Size=2),
     named("typeref", "Tr", type="string", isCustom=False),
     named("typeref", "TrInt", type="int64", isCustom=False),
-    named("typeref", "CT", type="string", isCustom=True),
+    named("typeref", "CT", type="string", isCustom=False),   # custom BY LOCATION: the hand-written gr/CT.go is found by the generator
     record("Leaf", [F("a", P("int32")), F("b", P("string"), optional=True)]),
     named("standaloneUnion", "U", Union={"HasNull": False, "Members": [
         {"Type": P("int32"), "Alias": "int"}, {"Type": P("string"), "Alias": "string"}]}),
@@ -51,6 +54,13 @@ BASE_TYPES = [
     record("KeyParams", [F("p", P("string"))]),
     named("complexKey", "CK", Key={"name": "KeyPart", "namespace": NS}, Params={"name": "KeyParams", "namespace": NS}),
     record("Ent", [F("id", P("int64"), optional=True), F("name", P("string"))]),
+    # the other namespace: a record with defaults of its own (its constructor is called from gr), and one of every kind
+    named("enum", "OColor", ns=ONS, Symbols=["BLUE", "PINK"], SymbolToDoc={}),
+    named("fixed", "OF2", ns=ONS, Size=3),
+    named("typeref", "OTr", ns=ONS, type="int64", isCustom=False),
+    record("OLeaf", [F("country", P("string"), default="\"US\""), F("zip", P("int32"), optional=True)], ns=ONS),
+    named("standaloneUnion", "OU", ns=ONS, Union={"HasNull": False, "Members": [
+        {"Type": P("string"), "Alias": "string"}, {"Type": R("OLeaf", ONS), "Alias": "gr.other.OLeaf"}]}),
 ]
 
 # the hand-written implementation of the custom typeref gr.CT, living beside the generated code
@@ -121,7 +131,9 @@ REST_ORDER = ["get", "create", "delete", "update", "partial_update", "batch_get"
 
 
 def item_key(it):
-    return (it["pos"], it["m"], len(it["e"]), it["e"])
+    # the modes of one type expression sit next to each other, so every packed record mixes required, optional and
+    # defaulted fields (a record needs a default of its own to get a default constructor at all)
+    return (it["pos"], len(it["e"]), it["e"], it["m"])
 
 
 def grammar_types(items, per=24):
